@@ -128,34 +128,46 @@ func (d *dec) groupBtreeNode(addr uint64, heap *localHeap, owner string, wantLev
 	}
 	c.addr("left sibling")
 	c.addr("right sibling")
-	d.addExtent(a, nodeSize, "btree1-group")
-	if n == 0 {
-		if depth != 0 {
-			d.fail("%s at 0x%x: non-root node with 0 entries", what, a)
-		}
-		return
-	}
 	keys := make([]uint64, n+1)
 	kids := make([]uint64, n)
+	truncated := false
 	for i := 0; i < n; i++ {
 		keys[i] = c.length("key")
 		kids[i] = c.addr("child pointer")
 		if kids[i] == UndefAddr {
 			d.fail("%s at 0x%x: child pointer #%d is undefined", what, a, i)
 		}
+		if kids[i] > addr && kids[i] < addr+nodeSize {
+			truncated = true
+		}
 	}
 	keys[n] = c.length("key")
+	if truncated {
+		// the pinned library allocates only the used part of the root group's B-tree node in version 0 files and puts the symbol table node right behind it
+		used := uint64(8+2*d.O) + uint64(n)*(keySize+uint64(d.O)) + keySize
+		d.deviate("btree1-node-truncated", "%s at 0x%x: a child node starts inside the %d bytes a node with K=%d occupies; only the %d used bytes are allocated", what, a, nodeSize, K, used)
+		d.addExtent(a, used, "btree1-group")
+	} else {
+		d.addExtent(a, nodeSize, "btree1-group")
+	}
+	if n == 0 {
+		if depth != 0 {
+			d.fail("%s at 0x%x: non-root node with 0 entries", what, a)
+		}
+		return
+	}
 	if lo != nil && keys[0] != *lo {
 		d.fail("%s at 0x%x: first key (heap offset %d) differs from the parent's bounding key (%d)", what, a, keys[0], *lo)
 	}
 	if hi != nil && keys[n] != *hi {
 		d.fail("%s at 0x%x: last key (heap offset %d) differs from the parent's bounding key (%d)", what, a, keys[n], *hi)
 	}
+	var keyProblem string
 	for i := 0; i < n; i++ {
 		kl := heap.str(d, keys[i], what+" key")
 		kr := heap.str(d, keys[i+1], what+" key")
-		if !(kl < kr) {
-			d.deviateOrFail("group-btree-keys", true, "%s at 0x%x: key #%d (%q) is not smaller than key #%d (%q)", what, a, i, kl, i+1, kr)
+		if !(kl < kr) && keyProblem == "" {
+			keyProblem = fmt.Sprintf("key #%d (%q) is not smaller than key #%d (%q)", i, kl, i+1, kr)
 		}
 		if level > 0 {
 			d.groupBtreeNode(kids[i], heap, owner, level-1, visited, out, prev, &keys[i], &keys[i+1], depth+1)
@@ -166,20 +178,18 @@ func (d *dec) groupBtreeNode(addr uint64, heap *localHeap, owner string, wantLev
 		for j := first; j < len(*out); j++ {
 			nm := (*out)[j].name
 			if *prev != nil && !(**prev < nm) {
-				d.deviateOrFail("snod-order", true, "symbol table node at 0x%x (group %s): entry %q does not sort after the preceding entry %q", d.abs(kids[i]), owner, nm, **prev)
+				d.deviate("snod-order", "symbol table node at 0x%x (group %s): entry %q does not sort after the preceding entry %q (entries must be in increasing name order)", d.abs(kids[i]), owner, nm, **prev)
 			}
 			s := nm
 			*prev = &s
 			// names in child i are greater than key i and less than or equal to key i+1
-			if !(kl < nm || (kl == "" && i == 0 && lo == nil)) || !(nm <= kr) {
-				d.deviateOrFail("group-btree-keys", true, "%s at 0x%x: entry %q of child #%d lies outside its key interval (%q, %q]", what, a, nm, i, kl, kr)
+			if (!(kl < nm) || !(nm <= kr)) && keyProblem == "" {
+				keyProblem = fmt.Sprintf("entry %q of child #%d lies outside its key interval (%q, %q]", nm, i, kl, kr)
 			}
 		}
-		if len(*out) > first {
-			if last := (*out)[len(*out)-1]; last.nameOff != keys[i+1] && last.name != kr {
-				d.deviateOrFail("group-btree-keys", true, "%s at 0x%x: key #%d (%q) is not the largest name (%q) of child #%d", what, a, i+1, kr, last.name, i)
-			}
-		}
+	}
+	if keyProblem != "" {
+		d.deviate("group-btree-keys", "%s at 0x%x: %s", what, a, keyProblem)
 	}
 }
 
@@ -197,11 +207,23 @@ func (d *dec) snod(addr uint64, heap *localHeap, owner string, out *[]stEntry) {
 	}
 	c.zero(1, "reserved")
 	n := int(c.u16("number of symbols"))
+	const libCap = 32
+	wide := 8 + uint64(libCap)*esz
 	if n > 2*K {
-		d.fail("%s at 0x%x: number of symbols %d exceeds 2K = %d", what, a, n, 2*K)
+		if n <= libCap {
+			d.deviate("snod-capacity-32", "%s at 0x%x: number of symbols %d exceeds 2K = %d (group leaf node K = %d); the node is laid out for %d entries", what, a, n, 2*K, K, libCap)
+		} else {
+			d.fail("%s at 0x%x: number of symbols %d exceeds 2K = %d", what, a, n, 2*K)
+		}
+	}
+	if d.tolerated("snod-capacity-32") && wide > size && d.abs(addr)+wide <= uint64(len(d.d)) {
+		// the pinned library allocates every symbol table node for 32 entries
+		size = wide
+		b = d.bytesAt(addr, size, what)
+		c.b = b
 	}
 	if n == 0 {
-		d.fail("%s at 0x%x: node holds 0 symbols", what, a)
+		d.deviate("snod-empty", "%s at 0x%x: node holds 0 symbols (an empty group has a B-tree with 0 entries and no symbol table node)", what, a)
 	}
 	d.addExtent(a, size, "snod")
 	for i := 0; i < n; i++ {
@@ -268,6 +290,10 @@ func (d *dec) checkCachedStab(e stEntry, group string, bt, hp uint64) {
 			}
 			return
 		}
+	}
+	if group == "<superblock root entry>" {
+		// reference files exist whose root group was created in the new (link message) style under a version 0 superblock; the cached addresses are then unused
+		return
 	}
 	d.fail("symbol table entry %q of group %s: cache type 1 but object header 0x%x has no symbol table message", e.name, group, d.abs(e.addr))
 }
